@@ -37,9 +37,11 @@ Definition ev_ok (s : state) (ev : event) : Prop :=
   exists e th, In e (firstn (ev_persisted ev) (persisted s)) /\
     get_thread (threads s) (ev_tid ev) = Some th /\ rq_dry (t_req th) = false /\
     ev_kind ev = rq_kind (t_req th) /\ ev_reverted ev = rev_of (t_req th) /\
-    same_kind (e_kind e) (ev_kind ev) = true /\ e_txid e = ev_txid ev /\
-    ((e_owner e = ev_tid ev /\ e_reverts e = ev_reverted ev) \/
-     (e_ik e <> 0%N /\ rq_ik (t_req th) = e_ik e)).
+    ((e_owner e = ev_tid ev /\ same_kind (e_kind e) (ev_kind ev) = true /\ e_txid e = ev_txid ev /\
+      e_reverts e = ev_reverted ev) \/
+     (e_ik e <> 0%N /\ rq_ik (t_req th) = e_ik e /\
+      ((same_kind (e_kind e) (ev_kind ev) = true /\ e_txid e = ev_txid ev) \/
+       (same_kind (e_kind e) (ev_kind ev) = false /\ is_tx_kind (ev_kind ev) = false /\ ev_txid ev = None)))).
 
 Record Inv (s : state) : Prop := {
   inv_uid_lt : forall x, known s x -> (e_uid x < v_uid s)%nat;
@@ -89,7 +91,7 @@ Lemma ev_ok_mono : forall s s' ev b,
      exists th', get_thread (threads s') w = Some th' /\ t_req th' = t_req th) ->
   ev_ok s ev -> ev_ok s' ev.
 Proof.
-  intros s s' ev b Hp Hth (Hle & e & th & H1 & H2 & H3 & H4 & H5 & H6 & H7 & H8).
+  intros s s' ev b Hp Hth (Hle & e & th & H1 & H2 & H3 & H4 & H5 & H8).
   split; [rewrite Hp, app_length; lia|].
   destruct (Hth _ _ H2) as (th' & G1 & G2).
   exists e, th'. rewrite G2. rewrite Hp, e3_firstn_app_le by exact Hle.
@@ -242,8 +244,8 @@ Lemma ev_ok_own : forall s s' t th th' e x,
 Proof.
   intros s s' t th th' e x Hp Hg Hr Hd (E1 & E2 & E3 & E4) Hin Hx.
   split; simpl; [rewrite Hp; lia|].
-  exists e, th'. rewrite Hp, Hr. repeat split; auto.
-  - apply in_firstn_all. exact Hin.
+  exists e, th'. rewrite Hp, Hr. split; [apply in_firstn_all; exact Hin|]. repeat split; auto.
+  left. repeat split; auto.
   - rewrite E2. apply same_kind_refl.
   - congruence.
 Qed.
@@ -258,9 +260,23 @@ Lemma ev_ok_replay : forall s s' t th th' e,
 Proof.
   intros s s' t th th' e Hp Hg Hr Hd Hin Hik Hnz Hk.
   split; simpl; [rewrite Hp; lia|].
-  exists e, th'. rewrite Hp, Hr. repeat split; auto.
-  - apply in_firstn_all. exact Hin.
-  - right. split; congruence.
+  exists e, th'. rewrite Hp, Hr. split; [apply in_firstn_all; exact Hin|]. repeat split; auto.
+  right. split; [congruence|]. split; [congruence|]. left. auto.
+Qed.
+
+(* a metadata request replaying a key stored by another kind of write: success and an event, nothing written *)
+Lemma ev_ok_cross : forall s s' t th th' e,
+  persisted s' = persisted s -> get_thread (threads s') t = Some th' -> t_req th' = t_req th ->
+  rq_dry (t_req th) = false -> In e (persisted s) -> e_ik e = rq_ik (t_req th) -> rq_ik (t_req th) <> 0%N ->
+  same_kind (e_kind e) (rq_kind (t_req th)) = false -> is_tx_kind (rq_kind (t_req th)) = false ->
+  ev_ok s' {| ev_tid := t; ev_kind := rq_kind (t_req th); ev_txid := None;
+              ev_reverted := match rq_kind (t_req th) with KRevert => Some (rq_revert (t_req th)) | _ => None end;
+              ev_persisted := length (persisted s) |}.
+Proof.
+  intros s s' t th th' e Hp Hg Hr Hd Hin Hik Hnz Hk Htx.
+  split; simpl; [rewrite Hp; lia|].
+  exists e, th'. rewrite Hp, Hr. split; [apply in_firstn_all; exact Hin|]. repeat split; auto.
+  right. split; [congruence|]. split; [congruence|]. right. auto.
 Qed.
 
 Ltac new_entry_tac :=
@@ -287,6 +303,14 @@ Proof.
     destruct (rq_dry (t_req t0)) eqn:Hdry; [left; reflexivity|].
     right. eexists. split; [reflexivity|]. split; [reflexivity|].
     eapply ev_ok_replay with (th := t0) (e := e);
+      [reflexivity | e3_cbn; apply e3_get_set_same | reflexivity | assumption ..].
+  - e3_cbn. intros x Hr Hd. right. rewrite Hd. eexists. split; [apply in_or_app; right; left; reflexivity|reflexivity].
+  - (* metadata request, key stored by another kind of write *)
+    unfold thread_ok in Hok; rewrite Heqp in Hok; destruct Hok as (Hk & Hin & Hik & Hnz).
+    rewrite e3_same_kind_match in Heqb0.
+    destruct (rq_dry (t_req t0)) eqn:Hdry; [left; reflexivity|].
+    right. eexists. split; [reflexivity|]. split; [reflexivity|].
+    eapply ev_ok_cross with (th := t0) (e := e);
       [reflexivity | e3_cbn; apply e3_get_set_same | reflexivity | assumption ..].
   - e3_cbn. intros x Hr Hd. right. rewrite Hd. eexists. split; [apply in_or_app; right; left; reflexivity|reflexivity].
   - e3_cbn. intros x [K|(b & Hb & K)].
@@ -433,10 +457,12 @@ Proof.
   congruence.
 Qed.
 
-(* what holds unconditionally: every event was published when an entry of the same kind and transaction id was
-   already on disk; the entry is the publisher's own -- then the reverted id agrees too -- or the one stored
-   under the publisher's idempotency key (replay) -- then the event names the transaction the REQUEST asked to
-   revert; the publisher is never a preview *)
+(* what holds unconditionally: every event was published by a non-preview request of the event's kind when an
+   entry was already on disk that is either
+   - the publisher's own: same kind, same transaction id, same reverted id; or
+   - the entry stored under the publisher's idempotency key (replay): then either it has the event's kind and
+     transaction id (the event names the transaction the REQUEST asked to revert), or it is of ANOTHER kind, the
+     publisher is a metadata write and the event carries no transaction id (nothing was written for it) *)
 Definition events_after_persist_weak (s : state) : Prop :=
   forall ev, In ev (published s) ->
     (ev_persisted ev <= length (persisted s))%nat /\
@@ -444,15 +470,25 @@ Definition events_after_persist_weak (s : state) : Prop :=
       get_thread (threads s) (ev_tid ev) = Some th /\ rq_dry (t_req th) = false /\
       ev_kind ev = rq_kind (t_req th) /\
       ev_reverted ev = match rq_kind (t_req th) with KRevert => Some (rq_revert (t_req th)) | _ => None end /\
-      same_kind (e_kind e) (ev_kind ev) = true /\ e_txid e = ev_txid ev /\
-      ((e_owner e = ev_tid ev /\ e_reverts e = ev_reverted ev) \/
-       (e_ik e <> 0%N /\ rq_ik (t_req th) = e_ik e)).
+      ((e_owner e = ev_tid ev /\ same_kind (e_kind e) (ev_kind ev) = true /\ e_txid e = ev_txid ev /\
+        e_reverts e = ev_reverted ev) \/
+       (e_ik e <> 0%N /\ rq_ik (t_req th) = e_ik e /\
+        ((same_kind (e_kind e) (ev_kind ev) = true /\ e_txid e = ev_txid ev) \/
+         (same_kind (e_kind e) (ev_kind ev) = false /\ is_tx_kind (ev_kind ev) = false /\ ev_txid ev = None)))).
 
 Theorem e3_after_persist_weak : forall s, reachable s -> events_after_persist_weak s.
 Proof. intros s R ev Hin. exact (inv_ev s (inv_reachable s R) ev Hin). Qed.
 
-(* the exclusion: no idempotency key that is stored on a revert entry is reused by a (non-preview) revert request
-   naming a different transaction *)
+(* the earlier, stronger reading -- "an entry of the same kind and transaction id was on disk" -- which the
+   cross-kind replay of a metadata write refutes *)
+Definition events_after_persist_samekind (s : state) : Prop :=
+  forall ev, In ev (published s) ->
+    (ev_persisted ev <= length (persisted s))%nat /\
+    exists e, In e (firstn (ev_persisted ev) (persisted s)) /\
+      same_kind (e_kind e) (ev_kind ev) = true /\ e_txid e = ev_txid ev.
+
+(* the exclusions. 1: no idempotency key that is stored on a revert entry is reused by a (non-preview) revert
+   request naming a different transaction *)
 Definition ik_revert_consistent_b (s : state) : bool :=
   forallb (fun p =>
     let q := t_req (snd p) in
@@ -466,6 +502,11 @@ Definition ik_revert_consistent_b (s : state) : bool :=
                           end) (persisted s)
     | _ => true
     end) (threads s).
+(* 2: no idempotency key is reused by a request of another kind than the entry stored under it *)
+Definition ik_kind_consistent_b (s : state) : bool :=
+  forallb (fun p => let rq := t_req (snd p) in
+    N.eqb (rq_ik rq) 0 ||
+    forallb (fun e => negb (N.eqb (e_ik e) (rq_ik rq)) || same_kind (e_kind e) (rq_kind rq)) (persisted s)) (threads s).
 
 Lemma e3_get_thread_in : forall l t th, get_thread l t = Some th -> In (t, th) l.
 Proof.
@@ -478,14 +519,23 @@ Qed.
 Lemma e3_in_firstn : forall (A : Type) n (l : list A) x, In x (firstn n l) -> In x l.
 Proof. intros A n l x H. rewrite <- (firstn_skipn n l). apply in_or_app. left. exact H. Qed.
 
-Theorem e3_after_persist_partial : forall s, reachable s -> ik_revert_consistent_b s = true -> events_after_persist s.
+Theorem e3_after_persist_partial : forall s, reachable s ->
+  ik_revert_consistent_b s = true -> ik_kind_consistent_b s = true -> events_after_persist s.
 Proof.
-  intros s R Hc ev Hin.
-  destruct (inv_ev s (inv_reachable s R) ev Hin) as (Hle & e & th & H1 & H2 & H3 & H4 & H5 & H6 & H7 & H8).
+  intros s R Hc Hkc ev Hin.
+  destruct (inv_ev s (inv_reachable s R) ev Hin) as (Hle & e & th & H1 & H2 & H3 & H4 & H5 & H8).
   split; [exact Hle|]. exists e. split; [exact H1|].
-  destruct H8 as [[Ho Hr]|[Hnz Hik]].
+  destruct H8 as [(Ho & H6 & H7 & Hr)|(Hnz & Hik & Hcase)].
   - split; [|left; exact Ho]. repeat split; auto.
   - split; [|right; split; [exact Hnz|exists th; auto]].
+    assert (Hsk : same_kind (e_kind e) (ev_kind ev) = true).
+    { unfold ik_kind_consistent_b in Hkc. rewrite forallb_forall in Hkc.
+      specialize (Hkc _ (e3_get_thread_in _ _ _ H2)). cbn [snd] in Hkc.
+      destruct (N.eqb (rq_ik (t_req th)) 0) eqn:E0.
+      - apply N.eqb_eq in E0. congruence.
+      - cbn [orb] in Hkc. rewrite forallb_forall in Hkc. specialize (Hkc e (e3_in_firstn _ _ _ _ H1)).
+        rewrite Hik, N.eqb_refl in Hkc. cbn [negb orb] in Hkc. rewrite H4. exact Hkc. }
+    destruct Hcase as [(H6 & H7)|(H6 & _)]; [|congruence].
     split; [exact H6|]. split; [exact H7|]. intros Hk.
     unfold ik_revert_consistent_b in Hc. rewrite forallb_forall in Hc.
     specialize (Hc _ (e3_get_thread_in _ _ _ H2)). cbn [snd] in Hc.
@@ -517,6 +567,17 @@ Proof.
   apply existsb_exists. exists e. split; [exact He|].
   unfold ev_match_b. rewrite M1, M2, onat_eq_refl. cbn [andb].
   destruct (ev_kind ev); try reflexivity. rewrite M3 by reflexivity. apply onat_eq_refl.
+Qed.
+
+(* executable necessary condition of [events_after_persist_samekind] *)
+Definition eap_samekind_b (s : state) : bool :=
+  forallb (fun ev => existsb (fun e => same_kind (e_kind e) (ev_kind ev) && onat_eq (e_txid e) (ev_txid ev))
+                             (firstn (ev_persisted ev) (persisted s))) (published s).
+Lemma eap_samekind_b_sound : forall s, events_after_persist_samekind s -> eap_samekind_b s = true.
+Proof.
+  intros s H. unfold eap_samekind_b. apply forallb_forall. intros ev Hin.
+  destruct (H ev Hin) as (_ & e & He & M1 & M2).
+  apply existsb_exists. exists e. split; [exact He|]. rewrite M1, M2, onat_eq_refl. reflexivity.
 Qed.
 
 (* a preview has published: executable witness against [no_event_for_preview] *)
